@@ -19,6 +19,8 @@ type GenOpts struct {
 	Timeout int64 // ns; 0 means "1 hour"
 	// Reentrant adds calls made from inside Stream callbacks to half of the histories (C01 only).
 	Reentrant bool
+	// AfterClose appends further pushes / Maintain / Close after the Close in a fifth of the histories.
+	AfterClose bool
 }
 
 // Random builds one seeded history that ends with Close.
@@ -116,7 +118,29 @@ func Random(r *mon.Rand, o GenOpts) *History {
 		}
 	}
 	h.Ops = append(h.Ops, Op{Kind: OpClose})
-	if o.Reentrant && r.Chance(1, 2) {
+	if o.AfterClose && r.Chance(1, 5) {
+		// the caller keeps using the Reassembler after Close: pushes are ordinary pushes, Maintain and Close refuse
+		for i, n := 0, r.Range(1, 10); i < n; i++ {
+			switch x := r.Intn(10); {
+			case x < 7:
+				op := Op{Kind: OpPushMsg, Seq: h.Base + mon.Pick(r, offs)}
+				switch y := r.Intn(10); {
+				case y < 6:
+					op.Type = mon.Pick(r, nonCompleting)
+				case y < 8:
+					op.Type = mon.Pick(r, completing)
+				default:
+					op.Type = TypeEOE
+				}
+				h.Ops = append(h.Ops, op)
+			case x < 9:
+				h.Ops = append(h.Ops, Op{Kind: OpMaintain})
+			default:
+				h.Ops = append(h.Ops, Op{Kind: OpClose})
+			}
+		}
+	}
+	if o.Reentrant && len(h.Ops) > 0 && h.Ops[len(h.Ops)-1].Kind == OpClose && r.Chance(1, 2) {
 		// calls made from inside Stream callbacks: Maintain, or a push of a FRESH sequence number
 		// (never one that is in flight, so "still buffered" is unambiguous)
 		for i, n := 0, r.Range(1, 4); i < n; i++ {
